@@ -208,6 +208,13 @@ class C04(Prop):
                                 'after_reap'), p=0.5, bad_p=0.6))
             if rng.random() < 0.3:
                 wc['opts']['max_retry'] = rng.choice([1, 2, 5])
+        if rng.random() < 0.15:
+            # captured output: every worker comes with pipes and redirector
+            # registrations whose descriptor numbers are reused by the next
+            # worker, possibly of another watcher
+            for wc in cfg['watchers']:
+                if rng.random() < 0.8:
+                    wc['stream_objects'] = True
         if rng.random() < 0.35:
             n = rng.choice([1, 2, 3, 6])
             start = rng.randrange(1, 15)
